@@ -845,7 +845,9 @@ func (t *terminal) handleCmdCSI(r escapeReader) bool {
 					debugPrintf(debugTodo, "TODO: Interpret Meta key = %v\n", value)
 
 				case 1049: // Save/Restore cursor and alternate screen
-					t.switchScreen()
+					if t.onAltScreen != value {
+						t.switchScreen()
+					}
 
 				case 2004: // Bracketed paste
 					t.setViewFlag(VFBracketedPaste, value)
